@@ -261,9 +261,10 @@ theorem ec_change_spec (f : Nat) (ed ed' : Ed) (loc arg : Bytes) (txt : Option B
 /-- the address `0` evaluates to `beg = end = 0`; it is accepted (return 0) iff the buffer is non-empty -/
 theorem region_zero (ed : Ed) : exRegion ed [48] = some ((if ed.len ≤ 0 then 1 else 0, 0, 0), ed) := by
   have hl := len_nonneg ed
-  have hm : max (-536870912 : Int) (min 0 536870912) = 0 := by decide
+  have hm : max (-1099511627776 : Int) (min 0 1099511627776) = 0 := by decide
+  have hm2 : max (-536870912 : Int) (min (-1) 536870912) = -1 := by decide
   unfold exRegion
-  simp [exRegion.go, exLineno, exLineno.offs, atoi, exAtoi, NUMMAX, isDigitC, isSpaceC, hm]
+  simp [exRegion.go, exLineno, exLineno.offs, atoi, exNum, TERMMAX, NUMMAX, isDigitC, isSpaceC, hm, hm2]
   by_cases h : ed.len ≤ 0
   · simp [h]
   · have : ¬ (0 ≥ ed.len) := by omega
